@@ -296,6 +296,11 @@ func (w *nftWorkload) recipient() string {
 		w.addrs[a] = true
 		return a
 	}
+	if rng.Intn(25) == 0 {
+		// nobody: the message's stateless validation refuses it; if it gets through, the token must still have an owner
+		w.run.Count("recipient-left-empty", 1)
+		return ""
+	}
 	if rng.Intn(8) == 0 {
 		// the other valid spelling of the same account
 		w.run.Count("recipient-spelled-in-upper-case", 1)
